@@ -565,6 +565,8 @@ def sm_op(sym, r):
         op = {"op": "stop", "id": sid, "code": r.choice([4, 8])}
     elif k == "d":
         op = {"op": "read", "id": sid, "ordered": True, "max_len": r.choice([5, 100000])}
+    elif k == "e":
+        op = {"op": "received_reset", "id": sid}
     else:
         op = {"op": "stopped", "id": sid}
     return {"do": "op", "n": side, "c": 0, "op": op}
@@ -588,7 +590,7 @@ def streamsm_from_seq(seq, r, idx):
             steps.append(sm_op(sym, r))
     steps.append({"do": "run", "us": 400000})
     # closing round: every operation once more on both sides
-    for sym in ["cq0", "sq0", "cd0", "sd0", "cw0", "sw0", "cf0", "sf0", "cs0", "ss0", "cr0", "sr0", "cd0", "sd0"]:
+    for sym in ["cq0", "sq0", "ce0", "se0", "cd0", "sd0", "cw0", "sw0", "cf0", "sf0", "cs0", "ss0", "cr0", "sr0", "ce0", "se0", "cd0", "sd0"]:
         if r.random() < 0.7:
             steps.append(sm_op(sym, r))
     steps.append({"do": "run", "us": 400000})
@@ -629,9 +631,9 @@ def streamsm_random(r, idx):
             sid = r.choice(pool)
             uni = (sid // 2) % 2 == 1
             init_side = 1 if sid % 2 == 0 else 0
-            kind = r.choice(["w", "f", "r", "q"] if (not uni or side == init_side) else ["d", "s"])
+            kind = r.choice(["w", "f", "r", "q"] if (not uni or side == init_side) else ["d", "s", "e"])
             if not uni and r.random() < 0.5:
-                kind = r.choice(["d", "s"])
+                kind = r.choice(["d", "s", "e"])
             sym = ("c" if side == 1 else "s") + kind + str(sid)
             steps.append(sm_op(sym, r))
     steps.append({"do": "run", "us": 600000})
@@ -650,7 +652,29 @@ def streamsm_random(r, idx):
 # ------------------------------------------------------------------------------------------------
 # C02
 
+def progress_eager(r, idx):
+    """A driver that polls a pacing-blocked connection every few microseconds instead of sleeping
+    until the pacing timer: harmless for a correct pacer, so a small transfer over a long, clean path
+    must finish within a few round trips."""
+    cfg = base_cfg(r)
+    cfg["latency_us"] = r.choice([50000, 100000, 250000])
+    cfg["eager_poll_us"] = r.choice([10, 20])
+    cfg["eager_polls"] = 3100000          # enough to keep polling for the whole time budget
+    t = {"idle_ms": 0, "mtud": False}
+    if r.random() < 0.5:
+        t["cc"] = r.choice(["newreno", "cubic", "fixed:12000"])
+    cfg["server"], cfg["client"] = dict(t), dict(t)
+    budget = 30
+    steps = [{"do": "connect", "n": 1},
+             {"do": "app", "n": 1, "c": 0, "read_max": 1 << 20, "ordered": True, "maxsize": 30000,
+              "streams": [{"dir": r.choice([0, 1]), "size": r.choice([3000, 30000]), "chunk": 5000, "finish": True}]},
+             {"do": "run_until", "what": "apps", "max_us": budget * 1000000}]
+    return {"cfg": cfg, "steps": steps, "tag": {"family": "progress-eager", "idx": idx, "budget_s": budget}}
+
+
 def progress_script(r, idx, fate_vec=None, drops_only=None):
+    if fate_vec is None and drops_only is None:
+        return progress_eager(r, idx)
     cfg = base_cfg(r)
     for side in ("server", "client"):
         t = {}
